@@ -1,6 +1,6 @@
 """C19: null runner never executes a body (memoized results are still served); null storage never memoizes. exit 1 = violated."""
 import sys, os, tempfile
-sys.path.insert(0, "/repo")
+sys.path.insert(0, (sys.argv[1] if len(sys.argv) > 1 else __import__("os").environ.get("PYVC_REPO", "/repo")))
 import twosigma.memento as m
 from twosigma.memento.runner_null import NullRunnerBackend
 from twosigma.memento.storage_null import NullStorageBackend
